@@ -10,6 +10,10 @@ import (
 	"encoding/json"
 	"fmt"
 
+	"github.com/bytom/bytom/consensus"
+	"github.com/bytom/bytom/crypto/ed25519/chainkd"
+	"github.com/bytom/bytom/protocol/bc/types"
+
 	"verif/lib/chainlab"
 	"verif/lib/ev"
 	"verif/lib/labnet"
@@ -160,7 +164,67 @@ func build(n int, thorough bool) *fam {
 
 var fams = map[int]*fam{}
 
+// buildElected: a validator-set change inside the epoch the target closes. On a prelude, block p1 carries a vote
+// transaction electing key X (not a federation member); checkpoint p2 closes that epoch: the votes for p2 still
+// belong to the parent epoch's set (the 4 federation keys), X's signature must not count for p2, while for p4
+// (next epoch) X is the only validator and federation signatures must not count.
+func buildElected() *fam {
+	net := labnet.Setup(2, 2, 4)
+	net.SetLocalKey(labnet.OutsiderKey())
+	net.AddKey(chainkd.RootXPrv([]byte{0xab, 0xcd})) // index 4 = X (not the node's own key)
+	P, err := chainlab.NewPrelude(net, 16)
+	if err != nil {
+		ev.Fatal("prelude: %v", err)
+	}
+	w := chainlab.NewWorld(net, P.Tip, P.Base)
+	tv := labnet.Tx([]labnet.Out{P.U[0]}, []*types.TxOutput{types.NewVoteOutput(*consensus.BTMAssetID, 100000000, labnet.Prog(0x30), net.Pubs[4][:], nil), types.NewOriginalTxOutput(*consensus.BTMAssetID, chainlab.UAmount-100000000-labnet.Fee, labnet.Prog(0x31), nil)})
+	p1 := w.AddBlock(0, "p1", labnet.BlockOpt{Txs: []*types.Tx{tv}})
+	p2 := w.AddBlock(p1, "p2", labnet.BlockOpt{})
+	p3 := w.AddBlock(p2, "p3", labnet.BlockOpt{})
+	p4 := w.AddBlock(p3, "p4", labnet.BlockOpt{})
+	p5 := w.AddBlock(p4, "p5", labnet.BlockOpt{})
+	f := &fam{W: w, n: 0}
+	add := func(e chainlab.Event) int {
+		e.Name = ""
+		e.Name = e.String()
+		if e.Kind == chainlab.EvBlock {
+			e.Name = "B:" + w.Names[e.Block]
+		}
+		w.Events = append(w.Events, e)
+		return len(w.Events) - 1
+	}
+	B := func(b int) int { return add(chainlab.Event{Kind: chainlab.EvBlock, Block: b}) }
+	V := func(v, s, t int) int { return add(chainlab.Event{Kind: chainlab.EvVote, Val: v, Src: s, Tgt: t}) }
+	R := func() int { return add(chainlab.Event{Kind: chainlab.EvRestart}) }
+	G := chainlab.Genesis
+	hist := func(name string, evs ...int) {
+		f.hists = append(f.hists, evs)
+		f.names = append(f.names, name)
+		f.complete = append(f.complete, true)
+	}
+	slX := func(slot int) int {
+		return add(chainlab.Event{Kind: chainlab.EvBlockSL, Block: p2, Src: G, Signers: []int{4}, Slot: slot + 1})
+	}
+	// X's signature carried in p2's header (in slot 0 = its rank in the NEW set, and in the other slots) + two genuine votes
+	for slot := 0; slot < 4; slot++ {
+		// two genuine votes from federation members whose slots differ from the one the foreign signature sits in
+		g1, g2 := (slot+1)%4, (slot+2)%4
+		hist(fmt.Sprintf("elected-foreign-signature-in-header-slot%d", slot), B(p1), slX(slot), V(g1, G, p2), V(g2, G, p2), R(), V(g2, G, p2), B(p3))
+	}
+	hist("elected-foreign-signature-by-p2p", B(p1), B(p2), V(4, G, p2), V(1, G, p2), V(2, G, p2), R(), B(p3))
+	hist("elected-three-genuine-votes-justify", B(p1), B(p2), V(0, G, p2), V(1, G, p2), V(2, G, p2), R(), B(p3))
+	// next epoch: X is the only validator of p4
+	hist("elected-old-set-votes-do-not-count-next-epoch", B(p1), B(p2), B(p3), B(p4), V(0, G, p4), V(1, G, p4), V(2, G, p4), R(), B(p5))
+	hist("elected-new-validator-justifies-next-epoch", B(p1), B(p2), B(p3), B(p4), V(0, G, p4), V(4, G, p4), R(), B(p5))
+	hist("elected-new-validator-header-next-epoch", B(p1), B(p2), B(p3), add(chainlab.Event{Kind: chainlab.EvBlockSL, Block: p4, Src: G, Signers: []int{4}}), R(), B(p5))
+	hist("elected-old-set-header-next-epoch", B(p1), B(p2), B(p3), add(chainlab.Event{Kind: chainlab.EvBlockSL, Block: p4, Src: G, Signers: []int{0}, Slot: 1}), R(), B(p5))
+	return f
+}
+
 func getFam(n int) *fam {
+	if n == 0 {
+		return buildElected()
+	}
 	// worlds of different n need different process-wide parameters: rebuild on every switch
 	f := build(n, true)
 	return f
@@ -213,8 +277,13 @@ func main() {
 	if !run.Thorough() {
 		sizes = []int{1, 2, 3, 4, 5, 6, 7, 8, 9, 10} // every size: the rounding of 2n/3 differs per residue
 	}
-	for _, n := range sizes {
-		f := build(n, run.Thorough())
+	for _, n := range append([]int{0}, sizes...) {
+		var f *fam
+		if n == 0 {
+			f = buildElected()
+		} else {
+			f = build(n, run.Thorough())
+		}
 		for i := range f.hists {
 			items = append(items, []int{n, i})
 			desc[[2]int{n, i}] = map[string]interface{}{"n": n, "family": f.names[i], "events": f.W.Describe(f.hists[i])}
@@ -228,7 +297,7 @@ func main() {
 	run.Set("histories", len(items))
 	run.Set("validator_set_sizes", sizes)
 	run.Set("rule", "per validator-set size n: every subset of signers (n<=5) or every subset size from both ends of the slot range (n>5), delivered as P2P votes and as header-carried links, plus forged / non-validator / all-slot-forged signatures, unjustified sources, direct and skip links, cached votes, each with a restart and a follow-up event; after EVERY event the node's justified set and finalized root are compared with the reference closure")
-	run.Assume("federation validator sets of size n (vote-elected sets are covered by C15/C18 worlds); E=2")
+	run.Assume("federation validator sets of size n, plus one world (n=0 in the samples) in which a vote transaction elects a new single-key validator set that takes over in the next epoch; E=2")
 	run.Finish()
 }
 
